@@ -2,6 +2,7 @@ package lint
 
 import (
 	"fmt"
+	"strings"
 
 	"golang.org/x/tools/go/ssa"
 )
@@ -103,4 +104,84 @@ func ruleRoundTerm() *Rule {
 			return out
 		},
 	}
+}
+
+// everyReplyCounts: the other direction of CONFIRM-COUNT. A reply that is not stale, from a voter, to a node that still
+// leads, is the voter's promise (it has refreshed its lastContact before answering, whatever it answered): it must be
+// counted. The conditions under which the counter is incremented are therefore ONLY those: the counter is still there,
+// the responder is a voter — nothing about what the reply says (a rejection for a log mismatch counts: otherwise a
+// healthy leader whose followers are busy catching up lets its lease lapse and grants the vote of a rejoining node).
+func everyReplyCounts(p *Program, id string) []Obligation {
+	fn := p.Func("(*Raft).sendAppendEntries")
+	if fn == nil {
+		return missing(id, "(*Raft).sendAppendEntries")
+	}
+	fr := NewRootFrame(fn)
+	ob := Obligation{Rule: id, Construct: "every non-stale reply of a voter is counted in (*Raft).sendAppendEntries", Pos: p.Pos(fn.Pos())}
+	// the increment: a store through a *int parameter
+	var inc *ssa.Store
+	for _, b := range fn.Blocks {
+		for _, in := range b.Instrs {
+			if st, ok := in.(*ssa.Store); ok {
+				if par, ok := st.Addr.(*ssa.Parameter); ok && par.Parent() == fn {
+					inc = st
+				}
+			}
+		}
+	}
+	if inc == nil {
+		ob.Verdict, ob.Detail = AnchorLost, "no increment of the round's counter found"
+		return []Obligation{ob}
+	}
+	ob.Pos = p.InstrPos(inc)
+	// the send
+	var send ssa.Instruction
+	for _, b := range fn.Blocks {
+		for _, in := range b.Instrs {
+			if iface, m, _ := invokeOf(in); iface == "Transport" && m == "SendAppendEntries" {
+				send = in
+			}
+		}
+	}
+	if send == nil {
+		ob.Verdict, ob.Detail = AnchorLost, "no Transport.SendAppendEntries found"
+		return []Obligation{ob}
+	}
+	var extra []string
+	for _, b := range fn.Blocks {
+		iff, ok := b.Instrs[len(b.Instrs)-1].(*ssa.If)
+		if !ok || !instrBlockDominates(send, iff) {
+			continue
+		}
+		// does this branch decide whether the increment is reached? (exactly one arm leads to it, and that arm continues the function)
+		toInc := [2]bool{}
+		for i, sc := range b.Succs {
+			toInc[i] = sc == inc.Block() || blockReaches(sc, inc.Block())
+		}
+		if toInc[0] == toInc[1] {
+			continue
+		}
+		other := b.Succs[0]
+		if toInc[0] {
+			other = b.Succs[1]
+		}
+		// a branch whose other arm leaves the function (return) is one of the staleness / leadership tests: CONFIRM-COUNT's matter
+		if _, isRet := other.Instrs[len(other.Instrs)-1].(*ssa.Return); isRet && len(other.Succs) == 0 {
+			continue
+		}
+		s := p.Canon(fr, iff.Cond).S
+		switch {
+		case strings.Contains(s, "IsVoter["), strings.Contains(s, "Members["), strings.Contains(s, "nil") && strings.Contains(s, "p2"):
+		default:
+			extra = append(extra, s+" at "+p.InstrPos(iff))
+		}
+	}
+	if len(extra) > 0 {
+		ob.Verdict = Violated
+		ob.Detail = "whether a reply is counted also depends on " + strings.Join(extra, "; ") + ": a voter's reply that is not stale is its promise not to vote for anyone else, whatever the reply says — a leader that does not count rejecting replies lets its lease lapse while its followers catch up, " +
+			"and then grants the prevote and the vote of a rejoining node"
+	} else {
+		ob.Verdict, ob.Detail = Discharged, "apart from the tests that leave the function, the increment depends only on the counter still being there and on the responder being a voter"
+	}
+	return []Obligation{ob}
 }
